@@ -63,6 +63,7 @@ SQLITE_REGISTRATION_MEANING = {
     "arccos": {"numpy.arccos"}, "arcsin": {"numpy.arcsin"}, "arctan": {"numpy.arctan"},
     "arccosh": {"numpy.arccosh"}, "arcsinh": {"numpy.arcsinh"}, "arctanh": {"numpy.arctanh"},
     "floor": {"math.floor", "numpy.floor"}, "ceil": {"math.ceil", "numpy.ceil"}, "ceiling": {"math.ceil", "numpy.ceil"},
+    "round": {"numpy.round", "numpy.around"},
 }
 
 # python functions that return an int for a float argument (numpy's counterparts keep the float type); registered raw as a SQLite
@@ -148,6 +149,9 @@ POSTGRESQL_TYPES = {"BIGINT", "INTEGER", "INT", "SMALLINT", "DOUBLE PRECISION", 
 SQL_FUNCTION_FORM_CAVEATS = {
     ("SQLiteModel", "ROUND", 2): "SQLite's ROUND(X, Y) takes a negative Y as 0 and rounds on the decimal rendering of X (sqlite.org/lang_corefunc.html#round); "
                                  "rounding to d decimals in the numpy sense needs the explicit scaling ROUND(x * POWER(10, d)) / POWER(10, d)",
+    ("SQLiteModel", "ROUND", 1): "SQLite's built-in ROUND(X) rounds halves away from zero and works on the decimal rendering (ROUND(2.5) = 3, ROUND(0.49999999999999994) = 1); "
+                                 "numpy.round — the Pandas and Polars meaning — rounds halves to even (2.5 -> 2): x.round() and x.around(k) differ on ties unless a user function "
+                                 "`round` replaces the built-in",
     ("PostgreSQLModel", "ROUND", 2): "PostgreSQL has ROUND(numeric, integer) only: ROUND(double precision, integer) does not exist and the query fails",
     ("PostgreSQLModel", "LOG", 1): "LOG(x) is the base-10 logarithm in PostgreSQL; the natural logarithm is LN(x)",
     ("SQLiteModel", "MAX", 2): "the two-argument scalar MAX returns NULL if any argument is NULL (propagates); as an aggregate it ignores NULL",
